@@ -68,7 +68,7 @@ def generate():
     items.append(str_def("loopCond", _norm(_paren_after(k, r"\bwhile\s*\("))))
     items.append(str_def("consumeCond", _norm(_paren_after(k, r"\bif\s*\(", 0))))
     # statements of the consume block and of the tail of one pass, in order
-    m = re.search(r"if\s*\(\s*running\s*&&[^{]*\{(.*?)\}\s*auto\s+reclaimed\s*=\s*(.*?);\s*index\s*\+=\s*reclaimed\s*;", k, re.S)
+    m = re.search(r"\bif\s*\([^{]*\{(.*?)\}\s*auto\s+reclaimed\s*=\s*(.*?);\s*index\s*\+=\s*reclaimed\s*;", k, re.S)
     if not m:
         raise ExtractError("keep_reclaim: consume block / reclaim call has a new shape")
     items.append(str_def("consumeBlock", _norm(m.group(1))))
